@@ -6,6 +6,8 @@
     (fieldName "k")                          → "K"
     (constName "Enum" "VALUE")               → "EnumValue"
     (goTypeName "int")                       → "int_"
+    (env SCHEMA (docs DOC…))                 → (env schemaOK enumValuesOK identsOK defsOKW generated declsWF pkgScopeWF)
+                                               the decidable hypotheses of gen_compiles_in_wording and its conclusion, evaluated
 
   SCHEMA := (schema "Query" MUT SUB TYPE…)   MUT, SUB := none | (some "Name")
   TYPE   := (scalar N) | (enum N (V…)) | (object N ((F T)…) (I…)) | (iface N ((F T)…)) | (union N (M…)) | (input N)
@@ -24,6 +26,7 @@
 import ApiFu.Common.Sexp
 import ApiFu.Common.Loop
 import ApiFu.C20.Model
+import ApiFu.C20.PropsEnvelope
 
 open ApiFu ApiFu.C20
 
@@ -240,6 +243,18 @@ def handle (line : String) : String :=
       match decode env 100000 (.named (toName n)) j with
       | some v => toString (Sexp.node "val" [goValS v])
       | none => "none"
+    | _, _ => "bad-op"
+  | some (.list [.atom "env", s, .list (.atom "docs" :: ds)]) =>
+    match schema? s, ds.mapM doc? with
+    | some S, some docs =>
+      let hyp4 := (docs.map (normalizeDoc S)).all fun d => d.defs.all (defOKW S (fragTypesOf d.defs))
+      let concl : Bool × Bool × Bool :=
+        match generate S docs with
+        | .ok out => (true, declsWF out.decls, pkgScopeWF out.decls)
+        | .error _ => (false, false, false)
+      toString (Sexp.node "env" [Sexp.ofBool (schemaOK S), Sexp.ofBool (enumValuesOK S),
+        Sexp.ofBool (identsOK S (docNames docs)), Sexp.ofBool hyp4,
+        Sexp.ofBool concl.1, Sexp.ofBool concl.2.1, Sexp.ofBool concl.2.2])
     | _, _ => "bad-op"
   | some (.list [.atom "fieldName", .atom k]) => toString (nameS (fieldName (toName k)))
   | some (.list [.atom "constName", .atom e, .atom v]) => toString (nameS (constName (toName e) (toName v)))
